@@ -18,7 +18,11 @@ Line-protocol driver for C16.
 (a'') pstrat <grouped> <vulns> <ranks> <table> <universe> <tag>     (harness/cmd/c16gen/strat.go: the real relax / override strategies)
     table = task=E | task=<patch>: every attempt of the closure run in isolation; reply: spec=<patches> order=<0|1>
 (b') cnc <eco n|m|p> <start s|t> <ops>     (harness/cmd/c16gen/cnc.go: CombinedNativeClient shared by 2..4 goroutines)
-    reply: same=1   (C16_oncecell; the values are judged against the sequential run the generator performs)
+          eco also x | M | N: the construction of the ecosystem's client fails     ops: a first group "!…" is set-up before the goroutines start
+    reply: same=1 got=<1|0 the callers got a client> built=<constructions>   (Model/OnceCell.lean run on the callers, C16_oncecell;
+           the values are judged against the sequential run the generator performs)
+(b'') dsc <eco n|m|p> <start s|t> <ops>     (harness/cmd/c16gen/dsc.go: a datasource client shared while its cache is saved / reloaded)
+    reply: hitsB=0   (requests a client makes after loading a cache that holds every key it is asked for)
 (b) cache <keys> <acts>
       keys = k,k,…   key of caller 0,1,…          acts = L<t> | P<t>:<v|err> | S<k=v;…|-> | G   (comma separated)
     reply: ret=<ok<v>|err|stuck,…> f=<nfetch 0>,<nfetch 1> cls=<r|w|f per L> maps=<k=v;…/…>
@@ -26,6 +30,7 @@ Line-protocol driver for C16.
 import Scalibr.Base.Wire
 import Scalibr.Model.Worklist
 import Scalibr.Model.Cache
+import Scalibr.Model.OnceCell
 open Scalibr Scalibr.Wire Scalibr.Worklist
 
 def strOf (h : String) : Option Str :=
@@ -252,9 +257,22 @@ def handle (line : String) : String :=
   | ["pfree", g, vs, rq, tb, _] => handleFree g vs rq tb
   | ["pstrat", g, vs, rk, tb, _, _] => handleStrat g vs rk tb
   | ["cache", ks, as] => handleCache ks as
-  | ["cnc", eco, st, _] =>
-    -- CombinedNativeClient (Model/OnceCell.lean, C16_oncecell): every caller of the ecosystem ends up with the one client
-    if (eco = "n" || eco = "m" || eco = "p") && (st = "s" || st = "t") then "same=1" else "bad-op"
+  | ["cnc", eco, st, ops] =>
+    -- CombinedNativeClient (Model/OnceCell.lean, C16_oncecell): one goroutine = one caller of the ecosystem's cell; the model is run
+    -- on the callers in order (every order gives the same answer: C16_oncecell) with the ecosystems whose construction fails
+    if (eco = "n" || eco = "m" || eco = "p" || eco = "x" || eco = "M" || eco = "N") && (st = "s" || st = "t") then
+      let n := (ops.splitOn ";").filter (fun g => !g.startsWith "!") |>.length
+      let e : Nat := if eco = "n" || eco = "N" then 0 else if eco = "m" || eco = "M" then 1 else if eco = "p" then 2 else 3
+      let fails : Nat → Bool := fun _ => eco = "x" || eco = "M" || eco = "N"
+      let s := Scalibr.OnceCell.run fails ((List.range n).map fun t => (t, e))
+      let gots := (List.range n).map s.got
+      let same := gots.all (· == gots.head?.join)
+      s!"same={if same then 1 else 0} got={if (gots.head?.join).isSome then 1 else 0} built={s.built e}"
+    else "bad-op"
+  | ["dsc", eco, st, _] =>
+    -- the datasource clients saved and reloaded while shared (harness/cmd/c16gen/dsc.go): the values are judged against the sequential run
+    -- the generator performs; the model's part is the request cache after SetMap m: a Get of a key of m is a read, no fetch (Cache.step .lookup)
+    if (eco = "n" || eco = "m" || eco = "p") && (st = "s" || st = "t") then "hitsB=0" else "bad-op"
   | _ => "bad-op"
 
 def main : IO Unit := serve handle
